@@ -236,7 +236,7 @@ func GenVal(t *rapid.T, o *ValOpts, s *TypeSpec, depth int) *Val {
 		var f float32
 		if !o.NoNaN && rapid.IntRange(0, 15).Draw(t, "v.f32nan") == 0 {
 			f = math.Float32frombits(0x7fc00000 | uint32(rapid.IntRange(0, 1).Draw(t, "v.f32sig"))<<0)
-			if rapid.Bool().Draw(t, "v.f32snan") {
+			if rapid.Bool().Draw(t, "v.f32snan") && !o.avoid("S44-float32-snan-quieted") {
 				f = math.Float32frombits(0x7f800001)
 			}
 		} else {
